@@ -47,6 +47,10 @@ func selfTest() error {
 		{"opaque access token in an error redirect fragment", synth(302, map[string]string{"Location": "https://web.example.com/cb#error=server_error&access_token=" + opq.access}, ""), "CAccess", "K302Err"},
 		{"code in an error redirect query", synth(302, map[string]string{"Location": "https://web.example.com/cb?error=server_error&x=" + code}, ""), "CCode", "K302Err"},
 		{"code in a form_post page", synth(200, nil, `<html><input type="hidden" name="c" value="`+code+`"/></html>`), "CCode", "KOk"},
+		{"form_post page with an opaque code field", synth(200, nil, `<html><form method="post" action="https://web.example.com/cb"><input type="hidden" name="state" value="s"/><input type="hidden" name="code" value="zzz" /></form></html>`), "CCode", "KOk"},
+		{"form_post page with token fields that do not look like tokens", synth(200, nil, `<html><form><input value='x1' type=hidden name='access_token'><input name=id_token value=x2><input name="refresh_token" value="x3"/></form></html>`), "CAccess CRefresh CIDToken", "KOk"},
+		{"form_post page with an empty code field and an error", synth(400, nil, `<html><form><input type="hidden" name="code" value=""/><input type="hidden" name="error" value="server_error"/></form></html>`), "CCode", "K4xx"},
+		{"error form_post page without credentials", synth(400, nil, `<html><form><input type="hidden" name="state" value="s"/><input type="hidden" name="error" value="server_error"/></form></html>`), "", "K4xx"},
 		{"refresh token in a body", synth(400, nil, `{"error":"server_error","hint":"`+opq.refresh+`"}`), "CRefresh", "K4xx"},
 		{"user claim in a body", synth(403, nil, `{"error":"access_denied","error_description":"Alice A"}`), "CClaims", "K4xx"},
 		{"sub member in a body", synth(403, nil, `{"sub":"alice"}`), "CClaims", "K4xx"},
@@ -72,6 +76,11 @@ func selfTest() error {
 	twoDocs := synth(400, map[string]string{"Content-Type": "application/json"}, `{"error":"server_error"}`+"\n"+`{"error":"invalid_request"}`)
 	if observe(e, fl, twoDocs).single {
 		return fmt.Errorf("self-test: a second JSON document in the body was not noticed")
+	}
+	// the 200 form_post page followed by the stub of an error redirect (encode first, store afterwards)
+	trailing := synth(200, nil, `<!doctype html><html><body><form><input type="hidden" name="state" value="s"/></form></body></html>`+"<a href=\"https://web.example.com/cb?error=server_error\">Found</a>.\n")
+	if observe(e, fl, trailing).single {
+		return fmt.Errorf("self-test: a second answer after the HTML page was not noticed")
 	}
 	return nil
 }
